@@ -153,7 +153,7 @@ def FullInv (s : State) : Prop := Inv B s ∧ SessionsHaveScope s
 /-- "Nothing missing" for the two by-owner lookups of specifications, together with what makes it
 inductive: every owner text of a stored specification satisfies `P`.  It is preserved by
 histories whose specification-owner texts all satisfy a `P` on which `B` is injective (one
-spelling per account; `PvProofs.C14.ownerLookups_complete_partial`), and NOT in general
+spelling per account; `PvProofs.C14.ownerComplete_run_partial`), and NOT in general
 (`PvProofs.C14.contractSpecsForOwner_incomplete_witness`). -/
 structure OwnerComplete (P : Addr → Prop) (s : State) : Prop where
   scopeSpecOwners : ∀ sp ∈ s.scopeSpecs, ∀ a ∈ sp.owners, P a
